@@ -430,7 +430,74 @@ def scalar_check(kind, case, rec):
                 {"iterations": int(res.iterations)})
 
 
+# ---------------------------------------------------------------------------------------------------------------
+# the umat path of newtonrhapson (no items): residual and tangent assembled from umat.gradient / umat.hessian with the
+# extraction flags handed over as kwargs
+# ---------------------------------------------------------------------------------------------------------------
+class HookeInH:
+    """linear-elastic law written in the displacement gradient H (or its symmetric part): used with add_identity=False"""
+
+    def __init__(self, mu, lmbda):
+        self.mu, self.lmbda = mu, lmbda
+
+    def gradient(self, x):
+        H, sv = x[0], x[-1]
+        eps = (H + np.einsum("ij...->ji...", H)) / 2
+        tr = np.einsum("ii...->...", eps)
+        return [2 * self.mu * eps + self.lmbda * tr * np.eye(3).reshape(3, 3, 1, 1), sv]
+
+    def hessian(self, x):
+        I = np.eye(3)
+        I4 = (np.einsum("ik,jl->ijkl", I, I) + np.einsum("il,jk->ijkl", I, I)) / 2
+        return [(2 * self.mu * I4 + self.lmbda * np.einsum("ij,kl->ijkl", I, I)).reshape(3, 3, 3, 3, 1, 1)]
+
+
+def umat_strategy(kind, tier):
+    return st.fixed_dictionaries({"n": st.lists(st.integers(2, 3), min_size=3, max_size=3), "move": fl(-0.2, 0.3), "mu": fl(0.5, 3), "lmbda": fl(0.5, 5),
+                                  "sym": st.booleans(), "clamped": st.booleans(), "jseed": st.integers(0, 2**16), "tolexp": st.integers(6, 11)})
+
+
+def umat_check(kind, case, rec):
+    fem = import_felupe()
+    mesh = fem.Cube(n=tuple(case["n"]))
+    X = np.array(mesh.points)
+    inner = ~np.any((np.abs(X) < 1e-12) | (np.abs(X - 1) < 1e-12), axis=1)
+    X[inner] += 0.1 / max(case["n"]) * np.random.default_rng(case["jseed"]).uniform(-1, 1, (int(inner.sum()), 3))
+    mesh.update(points=X)
+    region = fem.RegionHexahedron(mesh)
+    fc = fem.FieldContainer([fem.Field(region, dim=3)])
+    bounds, lc = fem.dof.uniaxial(fc, move=case["move"], clamped=case["clamped"])
+    if kind == "displacement-gradient-law":
+        um = HookeInH(case["mu"], case["lmbda"])
+        flags = dict(grad=True, sym=case["sym"], add_identity=False)
+        linear = True
+    else:
+        um = fem.NeoHooke(mu=case["mu"], bulk=case["mu"] + case["lmbda"])
+        flags = dict(grad=True, sym=False, add_identity=True)
+        linear = False
+    tol = 10.0 ** (-case["tolexp"])
+    rec.nontrivial = abs(case["move"]) >= 0.02
+    try:
+        res = fem.newtonrhapson(x0=fc, kwargs=dict(umat=um, **flags), tol=tol, **lc)
+    except ValueError:
+        rec.require("umat-path-converges", not linear, {"move": case["move"]})
+        rec.label("raised")
+        return
+    xv = np.concatenate([f.values.ravel() for f in res.x.fields])
+    dof0, dof1, ext0 = lc["dof0"], lc["dof1"], lc["ext0"]
+    rec.close("prescribed-values-exact", float(np.abs(xv[dof0] - ext0).max()), 4 * np.finfo(float).eps * max(1.0, abs(case["move"])))
+    # independent re-assembly with the caller's flags
+    Fq = res.x.extract(**flags)
+    stress = um.gradient([np.asarray(Fq[0]), None])[:-1]
+    r = np.asarray(fem.IntegralForm(stress, res.x, region.dV).assemble().toarray()).ravel()
+    fn = float(np.linalg.norm(r[dof1]) / (1e-3 + np.linalg.norm(r[dof0])))
+    rec.close("fresh-residual<tol", fn, tol * (1 + 1e-6) + 1e-12, {"flags": {k: bool(v) for k, v in flags.items()}, "iterations": int(res.iterations)})
+    if linear and tol >= 1e-10:
+        rec.require("linear-problem-one-iteration", int(res.iterations) == 1, int(res.iterations))
+
+
 FAMILIES = [
+    Family("umat-path", ["displacement-gradient-law", "deformation-gradient-law"], umat_check, strategy=umat_strategy, n={"quick": 12, "thorough": 300}, chunk=6),
     Family("scalar", ["quad", "hexahedron"], scalar_check, strategy=scalar_strategy, n={"quick": 15, "thorough": 400}, chunk=5),
     Family("newton", CLASSES, check, strategy=strategy, n={"quick": 48, "thorough": 1200}, chunk=8, weight=3),
     Family("solve", ["spd", "unsymmetric"], solve_check, strategy=solve_strategy, n={"quick": 30, "thorough": 3000}, chunk=50),
